@@ -8,9 +8,14 @@
 //   parse <slot> <src> ok|bad                   -> rc <n>
 //   setexpr <key> <expr> | setnum <key> <num> | clearparams | install <f> | uninstall <f>   -> ok
 //   dsheet <slot> | dsource <slot>              -> rc <n>
+//   ginstall <f> | guninstall <f>               -> ok      (process-wide function table)
+//   setobj <key> B:true|B:false|S:<text>        -> ok      (XObject parameter from the transformer's factory)
+//   setnode <key> <src>                         -> ok      (node-set parameter: document node of a parsed <src>)
+//   config <name> <value>                       -> ok      (indent n | enc name|- | escurl 0-2 | omitmeta 0-2 | plistener 0|1 | tlistener 0|1)
+//   leakprobe <sheet> <src> <n>                 -> L <live bytes after n/3> <after 2n/3> <after n>   (own transformer, counting MemoryManager)
 //   transform <sheetslot> <srcslot> <seed>      -> R rc=<n> out=<hex> err=<hex> [sizes=<name=n,...>]
 //   transformsrc <sheet> <src> <seed>           -> R ...
-//   fresh c|s <sheet> <src> <P> <F>             -> R ...   (P: k=E:expr;k=O:num;... or -   F: f;g or -)
+//   fresh c|s <sheet> <src> <P> <F> <C>         -> R ...   (P: k=E:expr;k=O:obj;... or -   F: f;g or -   C: name=value;... or -)
 //
 // `sizes=` is printed only when /repo carries the guarded hook of proposed/C06-hook.diff
 // (marker macro XALAN_C_VERIF_HAS_STACKSIZES).
@@ -32,6 +37,9 @@
 #include <xalanc/XalanTransformer/XalanParsedSource.hpp>
 #include <xalanc/XPath/Function.hpp>
 #include <xalanc/XPath/XObjectFactory.hpp>
+#include <xalanc/XSLT/ProblemListener.hpp>
+#include <xalanc/XSLT/TraceListener.hpp>
+#include <xercesc/framework/MemoryManager.hpp>
 #include <xalanc/XSLT/XSLTInputSource.hpp>
 #include <xalanc/XSLT/XSLTResultTarget.hpp>
 
@@ -59,6 +67,8 @@ static std::string hex(const std::string& s)
     for (unsigned char c : s) { r.push_back(d[c >> 4]); r.push_back(d[c & 15]); }
     return r;
 }
+
+static std::map<std::string, std::string> g_sheets, g_srcs;
 
 // An extension function ext:<name>() returning the string "F:<name>"
 class FunctionConst : public Function
@@ -93,21 +103,117 @@ private:
     std::string m_name;
 };
 
-static std::map<std::string, std::string> g_sheets, g_srcs;
 static int g_dummy1, g_dummy2;
+
+class CountPL : public ProblemListener
+{
+public:
+    long n;
+    CountPL() : n(0) {}
+    virtual void setPrintWriter(PrintWriter*) {}
+    virtual void problem(eSource, eClassification, const XalanDOMString&, const Locator*, const XalanNode*) { ++n; }
+    virtual void problem(eSource, eClassification, const XalanDOMString&, const XalanNode*) { ++n; }
+    virtual void problem(eSource, eClassification, const XalanNode*, const ElemTemplateElement*, const XalanDOMString&,
+                         const XalanDOMChar*, XalanFileLoc, XalanFileLoc) { ++n; }
+};
+
+class CountTL : public TraceListener
+{
+public:
+    long n;
+    CountTL() : n(0) {}
+    virtual void trace(const TracerEvent&) { ++n; }
+    virtual void selected(const SelectionEvent&) { ++n; }
+    virtual void generated(const GenerateEvent&) { ++n; }
+};
+
+// what belongs to one transformer besides the transformer itself
+struct Extras
+{
+    CountPL pl;
+    CountTL tl;
+    bool plOn, tlOn;
+    Extras() : plOn(false), tlOn(false) {}
+};
+
+static void applyConfig(XalanTransformer& t, Extras& x, const std::string& name, const std::string& value)
+{
+    if (name == "indent") t.setIndent(std::atoi(value.c_str()));
+    else if (name == "enc") t.setOutputEncoding(XalanDOMString(value == "-" ? "" : value.c_str()));
+    else if (name == "escurl") t.setEscapeURLs(XalanTransformer::eEscapeURLs(std::atoi(value.c_str())));
+    else if (name == "omitmeta") t.setOmitMETATag(XalanTransformer::eOmitMETATag(std::atoi(value.c_str())));
+    else if (name == "plistener")
+    {
+        x.plOn = value == "1";
+        t.setProblemListener(x.plOn ? &x.pl : 0);
+    }
+    else if (name == "tlistener")
+    {
+        bool on = value == "1";
+        if (on && !x.tlOn) t.addTraceListener(&x.tl);
+        if (!on && x.tlOn) t.removeTraceListener(&x.tl);
+        x.tlOn = on;
+    }
+}
+
+static void setObjectParam(XalanTransformer& t, const std::string& k, const std::string& v)
+{
+    if (v.compare(0, 2, "B:") == 0)
+        t.setStylesheetParam(XalanDOMString(k.c_str()), t.getXObjectFactory().createBoolean(v.substr(2) == "true"));
+    else if (v.compare(0, 2, "S:") == 0)
+        t.setStylesheetParam(XalanDOMString(k.c_str()), t.getXObjectFactory().createString(XalanDOMString(v.substr(2).c_str())));
+    else if (v.compare(0, 2, "D:") == 0)
+    {
+        // node-set parameter: the document node of a source parsed (and owned) by this transformer
+        std::istringstream is(g_srcs[v.substr(2)]);
+        XSLTInputSource in(&is);
+        const XalanParsedSource* ps = 0;
+        if (t.parseSource(in, ps) == 0 && ps != 0)
+            t.setStylesheetParam(XalanDOMString(k.c_str()), static_cast<XalanNode*>(ps->getDocument()));
+    }
+    else
+        t.setStylesheetParam(k.c_str(), std::atof(v.c_str()));
+}
+
+// MemoryManager that counts the bytes currently allocated through it
+class CountingMM : public xercesc::MemoryManager
+{
+public:
+    long live;
+    CountingMM() : live(0) {}
+    virtual void* allocate(XMLSize_t size)
+    {
+        char* p = static_cast<char*>(std::malloc(size + 16));
+        if (p == 0) throw std::bad_alloc();
+        *reinterpret_cast<XMLSize_t*>(p) = size;
+        live += long(size);
+        return p + 16;
+    }
+    virtual void deallocate(void* q)
+    {
+        if (q == 0) return;
+        char* p = static_cast<char*>(q) - 16;
+        live -= long(*reinterpret_cast<XMLSize_t*>(p));
+        std::free(p);
+    }
+    virtual xercesc::MemoryManager* getExceptionMemoryManager() { return this; }
+};
 
 struct Reused
 {
     XalanTransformer* t;
     std::map<int, const XalanCompiledStylesheet*> sheets;
     std::map<int, const XalanParsedSource*> sources;
+    Extras* x;
 
-    Reused() : t(0) { renew(); }
-    ~Reused() { delete t; }
+    Reused() : t(0), x(0) { renew(); }
+    ~Reused() { delete t; delete x; }
 
     void renew()
     {
         delete t;
+        delete x;
+        x = new Extras;
         sheets.clear();
         sources.clear();
         t = new XalanTransformer;
@@ -138,11 +244,21 @@ static std::string sizes(XalanTransformer& t)
     return o.str();
 }
 
+static Extras* g_cur = 0;    // listeners of the transformer that is transforming right now
+
 static std::string result(XalanTransformer& t, int rc, const std::string& out)
 {
     std::string err = rc != 0 ? std::string(t.getLastError()) : std::string();
     std::ostringstream o;
-    o << "R rc=" << rc << " out=" << hex(out) << " err=" << hex(err) << sizes(t);
+    o << "R rc=" << rc << " out=" << hex(out) << " err=" << hex(err);
+    if (g_cur != 0)
+    {
+        o << " pl=";
+        if (g_cur->plOn) o << g_cur->pl.n; else o << "-";
+        o << " tl=";
+        if (g_cur->tlOn) o << g_cur->tl.n; else o << "-";
+    }
+    o << sizes(t);
     return o.str();
 }
 
@@ -168,6 +284,7 @@ static std::string transformSrc(XalanTransformer& t, const std::string& sheet, c
     XSLTInputSource xin(&xs), sin(&ss);
     std::ostringstream out;
     XSLTResultTarget target(out);
+    if (g_cur) { g_cur->pl.n = 0; g_cur->tl.n = 0; }
     int rc = t.transform(xin, sin, target);
     return result(t, rc, out.str());
 }
@@ -176,6 +293,7 @@ static std::string transformCompiled(XalanTransformer& t, const XalanCompiledSty
 {
     std::ostringstream out;
     XSLTResultTarget target(out);
+    if (g_cur) { g_cur->pl.n = 0; g_cur->tl.n = 0; }
     int rc = t.transform(*ps, cs, target);
     return result(t, rc, out.str());
 }
@@ -248,7 +366,7 @@ int main()
             }
             else if (op == "setnum" && w.size() == 3)
             {
-                R.t->setStylesheetParam(w[1].c_str(), std::atof(w[2].c_str()));
+                setObjectParam(*R.t, w[1], w[2]);
                 reply = "ok";
             }
             else if (op == "clearparams")
@@ -265,6 +383,50 @@ int main()
             {
                 R.t->uninstallExternalFunction(NS, XalanDOMString(w[1].c_str()));
                 reply = "ok";
+            }
+            else if (op == "setobj" && w.size() == 3)
+            {
+                setObjectParam(*R.t, w[1], w[2]);
+                reply = "ok";
+            }
+            else if (op == "setnode" && w.size() == 3)
+            {
+                setObjectParam(*R.t, w[1], "D:" + w[2]);
+                reply = "ok";
+            }
+            else if (op == "ginstall" && w.size() == 2)
+            {
+                XalanTransformer::installExternalFunctionGlobal(NS, XalanDOMString(w[1].c_str()), FunctionConst("G" + w[1]));
+                reply = "ok";
+            }
+            else if (op == "guninstall" && w.size() == 2)
+            {
+                XalanTransformer::uninstallExternalFunctionGlobal(NS, XalanDOMString(w[1].c_str()));
+                reply = "ok";
+            }
+            else if (op == "config" && w.size() == 3)
+            {
+                applyConfig(*R.t, *R.x, w[1], w[2]);
+                reply = "ok";
+            }
+            else if (op == "leakprobe" && w.size() == 4)
+            {
+                const int n = std::atoi(w[3].c_str());
+                CountingMM mm;
+                std::ostringstream o;
+                o << "L";
+                {
+                    XalanTransformer t(mm);
+                    t.setWarningStream(0);
+                    g_cur = 0;
+                    for (int i = 1; i <= n; ++i)
+                    {
+                        transformSrc(t, w[1], w[2]);
+                        if (i == n / 3 || i == 2 * n / 3 || i == n) o << " " << mm.live;
+                    }
+                }
+                o << " end=" << mm.live;
+                reply = o.str();
             }
             else if (op == "dsheet" && w.size() == 2)
             {
@@ -300,23 +462,37 @@ int main()
                 if (R.sheets.count(a) == 0 || R.sources.count(b) == 0)
                     reply = "rc -100";
                 else
+                {
+                    g_cur = R.x;
                     reply = transformCompiled(*R.t, R.sheets[a], R.sources[b]);
+                }
             }
             else if (op == "transformsrc" && w.size() == 4)
             {
+                g_cur = R.x;
                 reply = transformSrc(*R.t, w[1], w[2]);
             }
-            else if (op == "fresh" && w.size() == 6)
+            else if (op == "fresh" && w.size() == 7)
             {
+                Extras x;
                 XalanTransformer t;
                 t.setWarningStream(0);
+                g_cur = &x;
+                {
+                    std::vector<std::string> cs = split(w[6], ';');
+                    for (size_t i = 0; i < cs.size(); ++i)
+                    {
+                        size_t e = cs[i].find('=');
+                        applyConfig(t, x, cs[i].substr(0, e), cs[i].substr(e + 1));
+                    }
+                }
                 std::vector<std::string> ps = split(w[4], ';');
                 for (size_t i = 0; i < ps.size(); ++i)
                 {
                     size_t e = ps[i].find('=');
                     std::string k = ps[i].substr(0, e), v = ps[i].substr(e + 1);
                     if (v.compare(0, 2, "E:") == 0) t.setStylesheetParam(k.c_str(), v.substr(2).c_str());
-                    else if (v.compare(0, 2, "O:") == 0) t.setStylesheetParam(k.c_str(), std::atof(v.substr(2).c_str()));
+                    else if (v.compare(0, 2, "O:") == 0) setObjectParam(t, k, v.substr(2));
                 }
                 std::vector<std::string> fs = split(w[5], ';');
                 for (size_t i = 0; i < fs.size(); ++i)
